@@ -16,6 +16,7 @@
 package main
 
 import (
+	"bytes"
 	"flag"
 	"fmt"
 	"reflect"
@@ -95,13 +96,23 @@ func (extFn) UpdateExt(dst interface{}, src interface{}) {
 // Selfer: encode on the value, decode on the pointer (only *SV is a Selfer) / both on the pointer
 type SV struct{ A int }
 
-func (x SV) CodecEncodeSelf(e *codec.Encoder)  { encCalls["selfer"]++; e.MustEncode(int64(x.A) + 1000) }
-func (x *SV) CodecDecodeSelf(d *codec.Decoder) { decCalls["selfer"]++; var v int64; d.MustDecode(&v); x.A = int(v - 1000) }
+func (x SV) CodecEncodeSelf(e *codec.Encoder) { encCalls["selfer"]++; e.MustEncode(int64(x.A) + 1000) }
+func (x *SV) CodecDecodeSelf(d *codec.Decoder) {
+	decCalls["selfer"]++
+	var v int64
+	d.MustDecode(&v)
+	x.A = int(v - 1000)
+}
 
 type SP struct{ A int }
 
 func (x *SP) CodecEncodeSelf(e *codec.Encoder) { encCalls["selfer"]++; e.MustEncode(int64(x.A) + 1000) }
-func (x *SP) CodecDecodeSelf(d *codec.Decoder) { decCalls["selfer"]++; var v int64; d.MustDecode(&v); x.A = int(v - 1000) }
+func (x *SP) CodecDecodeSelf(d *codec.Decoder) {
+	decCalls["selfer"]++
+	var v int64
+	d.MustDecode(&v)
+	x.A = int(v - 1000)
+}
 
 func bin(a int) []byte { return []byte("b" + strconv.Itoa(a)) }
 func unbin(b []byte, p string) int {
@@ -112,29 +123,38 @@ func unbin(b []byte, p string) int {
 // Binary
 type BV struct{ A int }
 
-func (x BV) MarshalBinary() ([]byte, error) { encCalls["binary"]++; return bin(x.A), nil }
+func (x BV) MarshalBinary() ([]byte, error)  { encCalls["binary"]++; return bin(x.A), nil }
 func (x *BV) UnmarshalBinary(b []byte) error { decCalls["binary"]++; x.A = unbin(b, "b"); return nil }
 
 type BP struct{ A int }
 
 func (x *BP) MarshalBinary() ([]byte, error) { encCalls["binary"]++; return bin(x.A), nil }
-func (x *BP) UnmarshalBinary(b []byte) error  { decCalls["binary"]++; x.A = unbin(b, "b"); return nil }
+func (x *BP) UnmarshalBinary(b []byte) error { decCalls["binary"]++; x.A = unbin(b, "b"); return nil }
 
 // Text
 type TV struct{ A int }
 
-func (x TV) MarshalText() ([]byte, error) { encCalls["text"]++; return []byte("t" + strconv.Itoa(x.A)), nil }
+func (x TV) MarshalText() ([]byte, error) {
+	encCalls["text"]++
+	return []byte("t" + strconv.Itoa(x.A)), nil
+}
 func (x *TV) UnmarshalText(b []byte) error { decCalls["text"]++; x.A = unbin(b, "t"); return nil }
 
 type TP struct{ A int }
 
-func (x *TP) MarshalText() ([]byte, error) { encCalls["text"]++; return []byte("t" + strconv.Itoa(x.A)), nil }
-func (x *TP) UnmarshalText(b []byte) error  { decCalls["text"]++; x.A = unbin(b, "t"); return nil }
+func (x *TP) MarshalText() ([]byte, error) {
+	encCalls["text"]++
+	return []byte("t" + strconv.Itoa(x.A)), nil
+}
+func (x *TP) UnmarshalText(b []byte) error { decCalls["text"]++; x.A = unbin(b, "t"); return nil }
 
 // JSON
 type JV struct{ A int }
 
-func (x JV) MarshalJSON() ([]byte, error) { encCalls["json"]++; return []byte(`"j` + strconv.Itoa(x.A) + `"`), nil }
+func (x JV) MarshalJSON() ([]byte, error) {
+	encCalls["json"]++
+	return []byte(`"j` + strconv.Itoa(x.A) + `"`), nil
+}
 func (x *JV) UnmarshalJSON(b []byte) error {
 	decCalls["json"]++
 	x.A = unbin([]byte(strings.Trim(string(b), `"`)), "j")
@@ -143,7 +163,10 @@ func (x *JV) UnmarshalJSON(b []byte) error {
 
 type JP struct{ A int }
 
-func (x *JP) MarshalJSON() ([]byte, error) { encCalls["json"]++; return []byte(`"j` + strconv.Itoa(x.A) + `"`), nil }
+func (x *JP) MarshalJSON() ([]byte, error) {
+	encCalls["json"]++
+	return []byte(`"j` + strconv.Itoa(x.A) + `"`), nil
+}
 func (x *JP) UnmarshalJSON(b []byte) error {
 	decCalls["json"]++
 	x.A = unbin([]byte(strings.Trim(string(b), `"`)), "j")
@@ -153,11 +176,17 @@ func (x *JP) UnmarshalJSON(b []byte) error {
 // all three pairs
 type ALL struct{ A int }
 
-func (x ALL) MarshalBinary() ([]byte, error) { encCalls["binary"]++; return bin(x.A), nil }
+func (x ALL) MarshalBinary() ([]byte, error)  { encCalls["binary"]++; return bin(x.A), nil }
 func (x *ALL) UnmarshalBinary(b []byte) error { decCalls["binary"]++; x.A = unbin(b, "b"); return nil }
-func (x ALL) MarshalText() ([]byte, error)   { encCalls["text"]++; return []byte("t" + strconv.Itoa(x.A)), nil }
-func (x *ALL) UnmarshalText(b []byte) error   { decCalls["text"]++; x.A = unbin(b, "t"); return nil }
-func (x ALL) MarshalJSON() ([]byte, error)   { encCalls["json"]++; return []byte(`"j` + strconv.Itoa(x.A) + `"`), nil }
+func (x ALL) MarshalText() ([]byte, error) {
+	encCalls["text"]++
+	return []byte("t" + strconv.Itoa(x.A)), nil
+}
+func (x *ALL) UnmarshalText(b []byte) error { decCalls["text"]++; x.A = unbin(b, "t"); return nil }
+func (x ALL) MarshalJSON() ([]byte, error) {
+	encCalls["json"]++
+	return []byte(`"j` + strconv.Itoa(x.A) + `"`), nil
+}
 func (x *ALL) UnmarshalJSON(b []byte) error {
 	decCalls["json"]++
 	x.A = unbin([]byte(strings.Trim(string(b), `"`)), "j")
@@ -167,12 +196,23 @@ func (x *ALL) UnmarshalJSON(b []byte) error {
 // Selfer and all marshalers: Selfer wins
 type SALL struct{ A int }
 
-func (x *SALL) CodecEncodeSelf(e *codec.Encoder) { encCalls["selfer"]++; e.MustEncode(int64(x.A) + 1000) }
-func (x *SALL) CodecDecodeSelf(d *codec.Decoder) { decCalls["selfer"]++; var v int64; d.MustDecode(&v); x.A = int(v - 1000) }
-func (x SALL) MarshalBinary() ([]byte, error)    { encCalls["binary"]++; return bin(x.A), nil }
-func (x *SALL) UnmarshalBinary(b []byte) error    { decCalls["binary"]++; x.A = unbin(b, "b"); return nil }
-func (x SALL) MarshalText() ([]byte, error)      { encCalls["text"]++; return []byte("t" + strconv.Itoa(x.A)), nil }
-func (x *SALL) UnmarshalText(b []byte) error      { decCalls["text"]++; x.A = unbin(b, "t"); return nil }
+func (x *SALL) CodecEncodeSelf(e *codec.Encoder) {
+	encCalls["selfer"]++
+	e.MustEncode(int64(x.A) + 1000)
+}
+func (x *SALL) CodecDecodeSelf(d *codec.Decoder) {
+	decCalls["selfer"]++
+	var v int64
+	d.MustDecode(&v)
+	x.A = int(v - 1000)
+}
+func (x SALL) MarshalBinary() ([]byte, error)  { encCalls["binary"]++; return bin(x.A), nil }
+func (x *SALL) UnmarshalBinary(b []byte) error { decCalls["binary"]++; x.A = unbin(b, "b"); return nil }
+func (x SALL) MarshalText() ([]byte, error) {
+	encCalls["text"]++
+	return []byte("t" + strconv.Itoa(x.A)), nil
+}
+func (x *SALL) UnmarshalText(b []byte) error { decCalls["text"]++; x.A = unbin(b, "t"); return nil }
 
 // one-sided: only the marshal halves / only the unmarshal halves -> the kind (struct) both ways
 type OM struct{ A int }
@@ -190,8 +230,16 @@ func (x *OU) UnmarshalJSON(b []byte) error   { decCalls["json"]++; return nil }
 // extension registered on a type that is also a Selfer and a BinaryMarshaler: the extension wins
 type EALL struct{ A int }
 
-func (x *EALL) CodecEncodeSelf(e *codec.Encoder) { encCalls["selfer"]++; e.MustEncode(int64(x.A) + 1000) }
-func (x *EALL) CodecDecodeSelf(d *codec.Decoder) { decCalls["selfer"]++; var v int64; d.MustDecode(&v); x.A = int(v - 1000) }
+func (x *EALL) CodecEncodeSelf(e *codec.Encoder) {
+	encCalls["selfer"]++
+	e.MustEncode(int64(x.A) + 1000)
+}
+func (x *EALL) CodecDecodeSelf(d *codec.Decoder) {
+	decCalls["selfer"]++
+	var v int64
+	d.MustDecode(&v)
+	x.A = int(v - 1000)
+}
 
 type extEALL struct{}
 
@@ -229,12 +277,18 @@ func (extEALL) UpdateExt(dst interface{}, src interface{}) {
 // and must still write them through their hook)
 type NT int
 
-func (x NT) MarshalText() ([]byte, error) { encCalls["text"]++; return []byte("t" + strconv.Itoa(int(x))), nil }
+func (x NT) MarshalText() ([]byte, error) {
+	encCalls["text"]++
+	return []byte("t" + strconv.Itoa(int(x))), nil
+}
 func (x *NT) UnmarshalText(b []byte) error { decCalls["text"]++; *x = NT(unbin(b, "t")); return nil }
 
 type NB string
 
-func (x NB) MarshalBinary() ([]byte, error) { encCalls["binary"]++; return []byte("b" + string(x)), nil }
+func (x NB) MarshalBinary() ([]byte, error) {
+	encCalls["binary"]++
+	return []byte("b" + string(x)), nil
+}
 func (x *NB) UnmarshalBinary(b []byte) error {
 	decCalls["binary"]++
 	*x = NB(strings.TrimPrefix(string(b), "b"))
@@ -243,16 +297,35 @@ func (x *NB) UnmarshalBinary(b []byte) error {
 
 type NS int32
 
-func (x NS) CodecEncodeSelf(e *codec.Encoder)  { encCalls["selfer"]++; e.MustEncode(int64(x) + 1000) }
-func (x *NS) CodecDecodeSelf(d *codec.Decoder) { decCalls["selfer"]++; var v int64; d.MustDecode(&v); *x = NS(v - 1000) }
+func (x NS) CodecEncodeSelf(e *codec.Encoder) { encCalls["selfer"]++; e.MustEncode(int64(x) + 1000) }
+func (x *NS) CodecDecodeSelf(d *codec.Decoder) {
+	decCalls["selfer"]++
+	var v int64
+	d.MustDecode(&v)
+	*x = NS(v - 1000)
+}
 
 type NALL uint16
 
 func (x NALL) MarshalBinary() ([]byte, error) { encCalls["binary"]++; return bin(int(x)), nil }
-func (x *NALL) UnmarshalBinary(b []byte) error { decCalls["binary"]++; *x = NALL(unbin(b, "b")); return nil }
-func (x NALL) MarshalText() ([]byte, error)   { encCalls["text"]++; return []byte("t" + strconv.Itoa(int(x))), nil }
-func (x *NALL) UnmarshalText(b []byte) error   { decCalls["text"]++; *x = NALL(unbin(b, "t")); return nil }
-func (x NALL) MarshalJSON() ([]byte, error)   { encCalls["json"]++; return []byte(`"j` + strconv.Itoa(int(x)) + `"`), nil }
+func (x *NALL) UnmarshalBinary(b []byte) error {
+	decCalls["binary"]++
+	*x = NALL(unbin(b, "b"))
+	return nil
+}
+func (x NALL) MarshalText() ([]byte, error) {
+	encCalls["text"]++
+	return []byte("t" + strconv.Itoa(int(x))), nil
+}
+func (x *NALL) UnmarshalText(b []byte) error {
+	decCalls["text"]++
+	*x = NALL(unbin(b, "t"))
+	return nil
+}
+func (x NALL) MarshalJSON() ([]byte, error) {
+	encCalls["json"]++
+	return []byte(`"j` + strconv.Itoa(int(x)) + `"`), nil
+}
 func (x *NALL) UnmarshalJSON(b []byte) error {
 	decCalls["json"]++
 	*x = NALL(unbin([]byte(strings.Trim(string(b), `"`)), "j"))
@@ -275,6 +348,14 @@ func (s *SM) CodecDecodeSelf(d *codec.Decoder) {
 	d.MustDecode(&m)
 	s.X, s.Y = m["x"], m["y"]-7
 }
+
+// a Selfer that re-enters the Encoder / Decoder with ANOTHER pointer type at the same address (the usual way of
+// reusing the default struct coding): under CheckCircularRef the two references differ in type only
+type SR struct{ A int }
+type plainSR SR
+
+func (x *SR) CodecEncodeSelf(e *codec.Encoder) { encCalls["selfer"]++; e.MustEncode((*plainSR)(x)) }
+func (x *SR) CodecDecodeSelf(d *codec.Decoder) { decCalls["selfer"]++; d.MustDecode((*plainSR)(x)) }
 
 // marshalers whose encoded form is EMPTY but not nil for the zero value (names end in 0: the sweep uses A = 0)
 type TE0 struct{ A int }
@@ -318,7 +399,7 @@ func (x *BE0) UnmarshalBinary(b []byte) error {
 // named string with an empty text form for ""
 type NTE0 string
 
-func (x NTE0) MarshalText() ([]byte, error) { encCalls["text"]++; return []byte(string(x)), nil }
+func (x NTE0) MarshalText() ([]byte, error)  { encCalls["text"]++; return []byte(string(x)), nil }
 func (x *NTE0) UnmarshalText(b []byte) error { decCalls["text"]++; *x = NTE0(string(b)); return nil }
 
 type xtype struct {
@@ -351,6 +432,7 @@ func xtypes() []xtype {
 		{"SV", reflect.TypeOf(SV{}), c("selfer"), ""},
 		{"SP", reflect.TypeOf(SP{}), c("selfer"), ""},
 		{"SM", reflect.TypeOf(SM{}), c("selfer"), ""},
+		{"SR", reflect.TypeOf(SR{}), c("selfer"), ""},
 		{"SALL", reflect.TypeOf(SALL{}), c("selfer"), ""},
 		{"BV", reflect.TypeOf(BV{}), marsh(true, false, false), ""},
 		{"BP", reflect.TypeOf(BP{}), marsh(true, false, false), ""},
@@ -430,7 +512,9 @@ func newHandle(format string, o vh.Opts) codec.Handle {
 // value in an interface{}: the struct is decoded in scratch space the hook of X must not disturb
 // mapiface / mapifaceptr: X / *X held in the interface{} VALUE of a map with a named key type (general map path),
 // decoded into a map that already holds a value of that type under the key
-var positions = []string{"top", "ptr", "ptrptr", "field", "slice", "array", "mapval", "mapkey", "iface", "ifaceptr", "mapvalfield", "ifacefield", "mapiface", "mapifaceptr"}
+var positions = []string{"top", "ptr", "ptrptr", "field", "slice", "array", "mapval", "mapkey", "iface", "ifaceptr", "mapvalfield", "ifacefield", "mapiface", "mapifaceptr",
+	// a pointer leading to an interface{} that holds X by value: top level, field, slice element, map value
+	"pifacetop", "pifacefield", "pifaceslice", "pifacemap"}
 
 type mapKeyName string
 
@@ -501,6 +585,44 @@ func place(p string, xt reflect.Type, a int) (src reflect.Value, dst reflect.Val
 		d := reflect.New(st)
 		d.Elem().Field(0).Set(reflect.New(xt).Elem()) // zero X inside the interface
 		return s, d
+	case "pifacetop", "pifacefield", "pifaceslice", "pifacemap":
+		pif := reflect.PointerTo(ifaceT)
+		newPI := func(v reflect.Value) reflect.Value { // *interface{} holding v
+			pi := reflect.New(ifaceT)
+			pi.Elem().Set(v)
+			return pi
+		}
+		zero := func() reflect.Value { return newPI(reflect.New(xt).Elem()) }
+		switch p {
+		case "pifacetop":
+			return newPI(x), zero() // Encode(&iface), Decode(&iface2) with iface2 holding a zero X
+		case "pifacefield":
+			st := reflect.StructOf([]reflect.StructField{{Name: "P", Type: pif}, {Name: "G", Type: reflect.TypeOf(0)}})
+			sv := reflect.New(st).Elem()
+			sv.Field(0).Set(newPI(x))
+			sv.Field(1).SetInt(7)
+			d := reflect.New(st)
+			d.Elem().Field(0).Set(zero())
+			return sv, d
+		case "pifaceslice":
+			sl := reflect.MakeSlice(reflect.SliceOf(pif), 2, 2)
+			sl.Index(0).Set(newPI(x))
+			sl.Index(1).Set(newPI(mk(a + 1)))
+			d := reflect.New(reflect.SliceOf(pif))
+			ds := reflect.MakeSlice(reflect.SliceOf(pif), 2, 2)
+			ds.Index(0).Set(zero())
+			ds.Index(1).Set(zero())
+			d.Elem().Set(ds)
+			return sl, d
+		default:
+			mt := reflect.MapOf(reflect.TypeOf(""), pif)
+			m := reflect.MakeMap(mt)
+			m.SetMapIndex(reflect.ValueOf("k"), newPI(x))
+			d := reflect.New(mt)
+			d.Elem().Set(reflect.MakeMap(mt))
+			d.Elem().SetMapIndex(reflect.ValueOf("k"), zero())
+			return m, d
+		}
 	case "mapiface", "mapifaceptr":
 		mt := reflect.MapOf(reflect.TypeOf(mapKeyName("")), ifaceT)
 		m := reflect.MakeMap(mt)
@@ -573,7 +695,7 @@ func main() {
 	cases := flag.String("cases", "/verif/build/c17/cases", "directory for the model case files")
 	flag.Parse()
 	r := vh.NewRng(vh.SeedFromEnv())
-	sum := vh.NewSummary("24 types (a Selfer that re-enters the Decoder on a general-path map, Text / Binary marshalers whose form is empty-not-nil for the zero value, named scalar-kind types with Text / Binary / Selfer / all pairs, BytesExt/InterfaceExt, SelfExt, ext+Selfer, Selfer value/pointer receiver, Selfer+marshalers, Binary/Text/JSON marshaler pairs with value and pointer receivers, all three pairs, marshal-only, unmarshal-only, time.Time) x 14 positions (incl. the interface{} value of a named-key map, pre-populated; a field of a small struct that is a map value / held by value in an interface{}) x root by value / by pointer x 5 formats x option vectors (Canonical on in every second round, TimeNotBuiltin in every third); distinct by (type, position, root, format, mechanism observed)")
+	sum := vh.NewSummary("25 types (a Selfer re-entering with another pointer type at the same address, a Selfer that re-enters the Decoder on a general-path map, Text / Binary marshalers whose form is empty-not-nil for the zero value, named scalar-kind types with Text / Binary / Selfer / all pairs, BytesExt/InterfaceExt, SelfExt, ext+Selfer, Selfer value/pointer receiver, Selfer+marshalers, Binary/Text/JSON marshaler pairs with value and pointer receivers, all three pairs, marshal-only, unmarshal-only, time.Time) x 18 positions (*interface{} holding X at top level / in a field / slice / map; incl. the interface{} value of a named-key map, pre-populated; a field of a small struct that is a map value / held by value in an interface{}) x root by value / by pointer x 5 formats x option vectors (Canonical on in every second round, TimeNotBuiltin in rounds 2 and 3 of every four, CheckCircularRef from round 1 on); distinct by (type, position, root, format, mechanism observed)")
 	cv := vh.NewCases(*cases, "From Coq Require Import List NArith Bool.\nFrom Verif Require Import Gen.Choice C17.Model C17.Corr.\nImport ListNotations.", "case", "mismatches", 60)
 	id := 0
 	for _, format := range vh.Formats {
@@ -589,8 +711,12 @@ func main() {
 			} else {
 				delete(o, "Canonical")
 			}
+			// CheckCircularRef: references are compared by (type, address); a hook may re-enter with another type
+			if round >= 1 {
+				o["CheckCircularRef"] = true
+			}
 			// TimeNotBuiltin: time.Time is then a Binary/Text/JSON marshaler like any other (every third round)
-			if round%3 == 2 {
+			if round%4 >= 2 { // rounds 2 (plain) and 3 (with Canonical)
 				o["TimeNotBuiltin"] = true
 			}
 			for _, xt := range xtypes() {
@@ -646,6 +772,19 @@ func main() {
 						// model case: the mechanism observed at top level vs Gen.Choice on the flags read through the hook
 						if p == "top" && !byPtr {
 							f := codec.VerifTypeFlagsOf(h, xt.rt)
+							if xt.name == "time" && err == nil {
+								// time's own marshalers carry no counters: recognise the mechanism by the bytes
+								t := src.Interface().(time.Time)
+								if mb, e := t.MarshalBinary(); e == nil && f.BinaryEncoding {
+									var viaBin []byte
+									if codec.NewEncoderBytes(&viaBin, h).Encode(mb) == nil && bytes.Equal(viaBin, out) {
+										encObs, decObs = "binary", "binary"
+									}
+								}
+								if mj, e := t.MarshalJSON(); e == nil && f.Json && !f.TimeBuiltin && bytes.Equal(bytes.TrimSpace(out), mj) {
+									encObs, decObs = "json", "json" // (the native json form is the same text)
+								}
+							}
 							ec, ok1 := mechCode[encObs]
 							dc, ok2 := mechCode[decObs]
 							if !ok1 || !ok2 {
